@@ -78,11 +78,27 @@ def main():
                 print(name, "PATCH DOES NOT APPLY")
                 continue
             res = {"applied": True, "checks": {}}
-            for p in props:
-                rc, keys, broken, tail = check(p)
-                res["checks"][p] = {"exit": rc, "reported": keys}
-                if broken:
-                    res["checks"][p]["broken"] = tail
+            if props == ALL:
+                r = sh("python3 checker/verif.py check ALL", VERIF)
+                cur = None
+                per = {}
+                for line in r.stdout.splitlines():
+                    m = re.match(r"^VIOLATION property=(C\d+) ", line)
+                    if m:
+                        cur = m.group(1)
+                    m = re.match(r"^  rule=\S+ key=(.*)$", line)
+                    if m and cur:
+                        per.setdefault(cur, []).append(m.group(1))
+                for p in props:
+                    res["checks"][p] = {"exit": 1 if p in per else 0, "reported": per.get(p, [])}
+                if "CHECKER-BROKEN" in r.stdout or r.returncode not in (0, 1):
+                    res["broken"] = r.stdout[-800:]
+            else:
+                for p in props:
+                    rc, keys, broken, tail = check(p)
+                    res["checks"][p] = {"exit": rc, "reported": keys}
+                    if broken:
+                        res["checks"][p]["broken"] = tail
             results[name] = res
         finally:
             restore()
